@@ -381,6 +381,11 @@ func (st *State) typeConstraint(v Term, t types.Type) Term {
 	if isRefLike(t) {
 		return And(Le(TInt(0), v), Le(v, st.wmNow()))
 	}
+	if n, ok := types.Unalias(t).(*types.Named); ok && n.Obj().Name() == "Context" && n.Obj().Pkg() != nil && n.Obj().Pkg().Path() == "context" {
+		// a context that exists now has a Done channel that exists now
+		d := UF(SI, "ctx.done", v)
+		return Imp(Neq(v, TInt(0)), And(Lt(TInt(0), d), Le(d, st.wmNow())))
+	}
 	if _, ok := under(types.Unalias(t)).(*types.Slice); ok {
 		return And(Le(TInt(0), slArr(v)), Le(slArr(v), st.wmNow()), Le(TInt(0), slOff(v)), Le(TInt(0), slLen(v)), Le(Add(slOff(v), slLen(v)), Term{"9223372036854775807", SI}))
 	}
